@@ -17,6 +17,7 @@ EXPLANATION = (
     "shadowing between token languages (e.g. `1e3`)."
     ' (R5) sibling partition of negated(); (R6) the digits of a suffixed integer are re-wrapped in the variant untyped_integer builds and converted by typed_literal, i.e. `300u8` and `300<u8>` share one digit evaluator and one conversion.'
     ' (R7) based-literal evaluators parse with <T>::from_str_radix where T is the payload type of the Value variant they build, without a cast.'
+    " (R8) float-valued literal evaluators (float, integer, scientific) return the result of str::parse::<f64>() on text spelled from the literal's tokens; float arithmetic between the digits and the result is allowed only under a guard on the exponent's fractional digits (no decimal spelling exists there)."
 )
 RADIX = {"Hexadecimal": ("0x", "16"), "Octal": ("0o", "8"), "Binary": ("0b", "2"), "Decimal": ("0d", "10")}
 
